@@ -26,6 +26,7 @@ def models(ctx):
     for d in tlc.leaves(r["out"]):
         if d not in doms:
             doms.append(d)
+    doms.sort(key=lambda d: (d["dt"], d["dom"]))
     if len(doms) < 50:
         raise core.Infra("domain export produced only %d domains" % len(doms))
     for cfg in ("MC_Realm_lbnoeq.cfg", "MC_Realm_range0.cfg"):
